@@ -431,8 +431,9 @@ def main(run: core.Run):
             seqs = [s for s in seqs if len(s) <= 2] + \
                 [s for s in seqs if len(s) == 3][run.seed % 5::5]
         for seq in seqs:
-            for cap in ((16, 32, 10 ** 6) if thorough else
-                        (16, 10 ** 6) if topo == 'w2' else (16,)):
+            for cap in ((16, 32, 10 ** 6) if thorough and topo == 'w2' else
+                        (16, 10 ** 6) if thorough or topo == 'w2' else
+                        (16,)):
                 items.append(({'topo': topo, 'cap': cap, 'seq': seq,
                                'cycles': 2 if thorough and topo == 'w2'
                                else 1}, 'free'))
@@ -446,7 +447,7 @@ def main(run: core.Run):
             for cap in ((16, 10 ** 6) if thorough else (16,)):
                 items.append(({'topo': topo, 'cap': cap, 'seq': seq,
                                'cycles': 2}, 'fine2' if thorough and
-                              len(seq) <= 2 else 'fine1'))
+                              topo == 'w2' and len(seq) <= 2 else 'fine1'))
     if thorough:
         grid = [((2, 2), F32, 'row', True, False),
                 ((2, 2), F32, 'col', False, False),
